@@ -13,7 +13,11 @@ META = {
                    "check_register_op returns Ok without a permission+signature check only when can_anyone_write(); verify_is_mergeable "
                    "compares address and permissions; (4) verify() returns Ok only after the owner signature verifies and every op passes "
                    "check_register_op and the size limit; (5) limit agreement: the largest ops.len() add_op can produce must be accepted by "
-                   "verify(), and merges must not exceed it. Not decided: crdts::MerkleReg internals, BLS soundness.",
+                   "verify(), and merges must not exceed it; (6) RegisterOp: the op signature covers address, crdt_op and source whole (not a field of them), "
+                   "verify_signature is the BLS verdict over the op's own fields, new() signs what it stores; (7) RegisterCrdt hands everything to "
+                   "the crdts crate: merge = MerkleReg::merge(self.data, other.data) and nothing else, apply_op applies op.crdt_op only to the "
+                   "addressed register, read() presents all of MerkleReg::read(), and only merge/apply_op/write mutate the data. "
+                   "Not decided: crdts::MerkleReg internals, BLS soundness.",
     "not_decided": ["MerkleReg (crdts crate) convergence of the derived current value", "BLS signature soundness"],
 }
 
@@ -72,6 +76,7 @@ def max_accepted(rel, k):
 
 def run(R):
     op_rules(R)
+    crdt_rules(R)
     F = R.F
     # (1) who writes ops, and only through extend/insert
     sites = R.who_may_write("C06.ops", SR, "ops", [SR + "::merge", SR + "::verified_merge", SR + "::add_op"], floor=3,
@@ -366,3 +371,55 @@ def op_rules(R):
         R.gate("C06.apply.addr", ap, CallSink("*crdts::traits::CmRDT>::apply", "*CmRDT::apply"),
                [[CmpGuard(fld("address", 0), fld("address", 1), "Eq", "self.address == op.address", through="all")]],
                descr="apply_op applies an operation only if it is addressed to this register")
+
+
+def crdt_rules(R):
+    """RegisterCrdt is a thin wrapper: convergence of the *presented values* is the crdts crate's MerkleReg, provided the wrapper
+    hands it everything.  merge(other) = MerkleReg::merge(other.data) whole (orphans included), apply_op = MerkleReg::apply of the
+    op's node, and nothing else mutates the data."""
+    from rules import PL, _chain_calls, DROPPING_ADAPTORS
+    from flow import whole_uses
+    F = R.F
+    R.who_may_write("C06.crdt.own", CRDT, "data", [CRDT + "::merge", CRDT + "::apply_op", CRDT + "::write"], floor=3,
+                    descr="RegisterCrdt.data is mutated only by merge, apply_op and write")
+    mg = R.body("C06.crdt.merge", CRDT + "::merge")
+    if mg is not None:
+        prep(mg)
+        MERGE = "<crdts::merkle_reg::MerkleReg<T> as crdts::traits::CvRDT>::merge"
+        calls = [b for b in mg.blocks if b["term"]["k"] == "call" and not b["cleanup"]]
+        merges = [b for b in calls if callee_matches(b["term"], [MERGE, "*MerkleReg<T> as crdts::traits::CvRDT>::merge"])]
+        others = [b["term"]["ncallee"] for b in calls if b not in merges and "crdts::" in (b["term"]["ncallee"] or "")]
+        ok = len(merges) == 1 and not others
+        if ok:
+            t = merges[0]["term"]
+            # receiver = self.data, argument = other.data taken whole
+            recv = {d for d, r, p in field_reads(mg, "data") if r in PL(mg, 0) or p and p[0] in Taint(mg).closure(PL(mg, 0))}
+            arg = op_local(t["args"][1])
+            src_other = Taint(mg).closure(PL(mg, 1))
+            arg_is_other_data = any(st["d"] == [arg] and st["rv"]["k"] == "use" and st["rv"]["a"][0] in ("cp", "mv") and st["rv"]["a"][1][0] in src_other
+                                    and st["rv"]["a"][1][-1] == ".data" for b in mg.blocks for st in b["stmts"]) or (t["args"][1][0] in ("cp", "mv") and t["args"][1][1][0] in src_other and t["args"][1][1][-1] == ".data")
+            ok = arg_is_other_data
+        if not ok:
+            R.viol("C06.crdt.merge", "merge-delegation", "RegisterCrdt::merge is not exactly `self.data.merge(other.data)` (MerkleReg::merge also carries the other replica's orphans; "
+                   "re-applying a selection of its nodes does not): %s" % (others[:3] or "argument is not other.data"), mg, mg.lines[0])
+        R.inst("C06.crdt.merge", "K1 must-call", "RegisterCrdt::merge = MerkleReg::merge(self.data, other.data), nothing else", len(merges), ok)
+    ap = R.body("C06.crdt.apply", CRDT + "::apply_op")
+    if ap is not None:
+        prep(ap)
+        aps = [b for b in ap.blocks if b["term"]["k"] == "call" and not b["cleanup"] and callee_matches(b["term"], ["*crdts::traits::CmRDT>::apply"])]
+        src_op = Taint(ap).closure(PL(ap, 1))
+        ok = len(aps) == 1 and (aps[0]["term"]["args"][1][0] in ("cp", "mv")) and aps[0]["term"]["args"][1][1][0] in src_op and ".crdt_op" in aps[0]["term"]["args"][1][1] or \
+            (len(aps) == 1 and any(st["d"] == [op_local(aps[0]["term"]["args"][1])] and st["rv"]["k"] == "use" and st["rv"]["a"][0] in ("cp", "mv") and st["rv"]["a"][1][0] in src_op
+                                   and st["rv"]["a"][1][-1] == ".crdt_op" for b in ap.blocks for st in b["stmts"]))
+        if not ok:
+            R.viol("C06.crdt.apply", "apply-delegation", "RegisterCrdt::apply_op does not apply exactly the op's own CRDT node", ap, ap.lines[0])
+        R.inst("C06.crdt.apply", "K6 flows-to", "apply_op applies op.crdt_op whole to the MerkleReg", len(aps), ok)
+    rd = R.body("C06.crdt.read", CRDT + "::read")
+    if rd is not None:
+        prep(rd)
+        names, _f = _chain_calls(F, rd, 0)
+        dropped = [n for n in names if any(n.endswith(x) or (x + "<") in n for x in DROPPING_ADAPTORS)]
+        ok = "crdts::merkle_reg::MerkleReg::read" in names and not dropped
+        if not ok:
+            R.viol("C06.crdt.read", "read-delegation", "RegisterCrdt::read does not present every current value of MerkleReg::read (%s)" % (dropped[:1] or "read() not on the chain"), rd, rd.lines[0])
+        R.inst("C06.crdt.read", "K6 flows-to", "read() = all of MerkleReg::read(), unfiltered", len(names), ok)
